@@ -124,7 +124,7 @@ func rewriteOf(u s2.CellUnion) string {
 	return sortedSet(xs)
 }
 
-func pairOp(c *hx.Ctx, F, Q s2.CellUnion) {
+func pairOp(c *cx, F, Q s2.CellUnion) {
 	ans := hx.Recover(func() string { return "T=" + tokensOf(F) + " R=" + rewriteOf(Q) })
 	c.Op("pair F="+cellsText(F)+" Q="+cellsText(Q), ans)
 }
@@ -193,7 +193,7 @@ func relative(r *hx.Rand, c s2.CellID) s2.CellID {
 	}
 }
 
-func tokenCase(c *hx.Ctx) {
+func tokenCase(c *cx) {
 	r := c.Rand
 	nF, nQ := r.Intn(6), r.Intn(6)
 	if r.Chance(1, 10) {
@@ -402,7 +402,7 @@ func siteCentre(r *hx.Rand, R float64) (s2.Point, string) {
 var scaleBounds = [][2]float64{{2e-9, 1e-5}, {1e-5, 1e-3}, {1e-3, 0.05}, {0.05, 1.3}}
 var scaleNames = []string{"tiny", "small", "medium", "huge"}
 
-func buildWorld(c *hx.Ctx) *world {
+func buildWorld(c *cx, forceCompact bool) *world {
 	r := c.Rand
 	scale := r.Intn(4)
 	R := logUniform(r, scaleBounds[scale][0], scaleBounds[scale][1])
@@ -466,7 +466,33 @@ func buildWorld(c *hx.Ctx) *world {
 	for i, f := range feats {
 		fs[i] = f.f
 	}
-	switch r.Intn(3) {
+	kindNo := r.Intn(4)
+	if forceCompact {
+		kindNo = 4
+	}
+	switch kindNo {
+	case 4:
+		// compact index; only ever built inside a child process (see compact.go)
+		cw, err := buildCompact(fs)
+		if err != nil {
+			panic("compact: " + err.Error())
+		}
+		w.w, w.kind = cw, "compact"
+	case 3:
+		// the generic two-world overlay: both layers are read-only basic worlds
+		k := r.Intn(len(fs) + 1)
+		base, err := ingest.NewWorldFromSource(ingest.MemoryFeatureSource(fs[:k]), &ingest.BuildOptions{Cores: 1, FailInvalidFeatures: true})
+		if err != nil {
+			panic("build: " + err.Error())
+		}
+		over, err := ingest.NewWorldFromSource(ingest.MemoryFeatureSource(fs[k:]), &ingest.BuildOptions{Cores: 1, FailInvalidFeatures: true})
+		if err != nil {
+			panic("build: " + err.Error())
+		}
+		for i := k; i < len(feats); i++ {
+			feats[i].over = true
+		}
+		w.w, w.kind = ingest.NewOverlayWorld(over, base), "overlay2"
 	case 0:
 		m := ingest.NewBasicMutableWorld()
 		for _, f := range fs {
@@ -553,8 +579,18 @@ func (w *world) nearPath(r *hx.Rand) (s2.Point, bool) {
 	return s2.Point{}, false
 }
 
-func (w *world) makeQuery(c *hx.Ctx) query {
+func (w *world) makeQuery(c *cx) query {
 	r := c.Rand
+	if r.Chance(1, 14) {
+		// MightIntersect: Matches is constantly true, the result is the candidate set of the region's covering
+		var region s2.Region
+		if r.Bool() {
+			region = s2.CapFromCenterAngle(w.anchor(r), s1.Angle(w.R*unit(r)))
+		} else {
+			region = w.anchor(r)
+		}
+		return query{"might", b6.MightIntersect{Region: region}, search.NewSpatialFromRegion(region).Covering()}
+	}
 	switch r.Intn(12) {
 	case 0, 1:
 		var rad float64
@@ -665,7 +701,7 @@ func idWord(id b6.FeatureID) string {
 
 var indexCoverer = s2.RegionCoverer{MaxLevel: 16, MaxCells: 5}
 
-func (w *world) findOp(c *hx.Ctx, q query) {
+func (w *world) findOp(c *cx, q query) {
 	r := c.Rand
 	full := q.q
 	wrap := "plain"
@@ -760,8 +796,8 @@ func (w *world) findOp(c *hx.Ctx, q query) {
 	c.Op("find "+q.kind+" W="+w.kind+" wrap="+wrap+" Q="+cellsText(q.cov)+" F="+sb.String(), ans)
 }
 
-func worldCase(c *hx.Ctx) {
-	w := buildWorld(c)
+func worldCase(c *cx, forceCompact bool) {
+	w := buildWorld(c, forceCompact)
 	n := 4 + c.Rand.Intn(6)
 	for i := 0; i < n; i++ {
 		w.findOp(c, w.makeQuery(c))
@@ -772,7 +808,7 @@ func worldCase(c *hx.Ctx) {
 
 func ll(lat, lng float64) s2.Point { return s2.PointFromLatLng(s2.LatLngFromDegrees(lat, lng)) }
 
-func corpus(c *hx.Ctx) {
+func corpus(c *cx) {
 	r := c.Rand
 	// fixed (fixes/C04-index-level0-cells.patch): a face cell in the feature covering
 	pairOp(c, s2.CellUnion{cellFrom(2, nil)}, s2.CellUnion{cellFrom(2, []int{1, 3})})
@@ -846,19 +882,25 @@ func corpus(c *hx.Ctx) {
 }
 
 func main() {
+	hx.RegisterChild("c04compact", compactChild)
 	hx.Main(hx.Family{
-		Name: "c04",
-		Rule: "even cases: three `pair` ops on random/adversarial cell unions (relatives of each other: ancestors, faces, descendants, siblings, neighbours, levels 0..30); odd cases: a generated world (mutable / basic / overlay; 2-9 features: points, paths, star-shaped areas with holes and several polygons, relations, unindexed points; extent 1 cm .. 8000 km; sited anywhere, on cell or cube-face boundaries, near a pole, at the antimeridian) queried 4-9 times (cap, cells, point, polyline, multipolygon, intersects-feature; plain or wrapped in Intersection/Typed). non-trivial = a find op where the query's own Matches accepts some indexed features and rejects others, or a pair op whose unions intersect; distinct = by hash of the op text",
-		Quick:    2400,
+		Name:     "c04",
+		Rule:     "even cases: three `pair` ops on random/adversarial cell unions (relatives of each other: ancestors, faces, descendants, siblings, neighbours, levels 0..30); odd cases: a generated world (mutable / basic / MutableOverlayWorld over basic / OverlayWorld of two basic worlds; every 100th case (400th in the thorough tier) a compact world built in a child process; 2-9 features: points, paths, star-shaped areas with holes and several polygons, relations, unindexed points; extent 1 cm .. 8000 km; sited anywhere, on cell or cube-face boundaries, near a pole, at the antimeridian) queried 4-9 times (cap, cells, point, polyline, multipolygon, intersects-feature, might-intersect; plain or wrapped in Intersection/Typed). non-trivial = a find op where the query's own Matches accepts some indexed features and rejects others, or a pair op whose unions intersect; distinct = by hash of the op text",
+		Quick:    2400, // keep in step with runCount in compact.go
 		Thorough: 60000,
-		Corpus:   corpus,
+		Corpus:   func(c *hx.Ctx) { corpus(fromCtx(c)) },
 		Case: func(c *hx.Ctx) {
+			if c.CaseNo%50 == 0 {
+				prefetch(c)
+			}
 			if c.CaseNo%2 == 0 {
 				for i := 0; i < 3; i++ {
-					tokenCase(c)
+					tokenCase(fromCtx(c))
 				}
+			} else if isCompactCase(c.CaseNo, c.Tier) {
+				compactCase(c)
 			} else {
-				worldCase(c)
+				worldCase(fromCtx(c), false)
 			}
 		},
 	})
